@@ -3,7 +3,7 @@ CONSTANTS NR = 3
           NC = 4
           W = 2
           NMat = 0
-          NY = 0
+          NY = 64
           Variant = "code"
 INVARIANTS TypeOK WOrthogonal VOrthogonal SelectionOK SkipSound ThreeTermWhenClassical YOrthogonal RankBound TerminationTest ResultOK
 CHECK_DEADLOCK TRUE
